@@ -10,18 +10,11 @@ META = {
 }
 
 
-def _mc(c, *a, **k):
-    import os
-    if os.environ.get("VERIF_SKIP_MC"):  # speed-up for mutation testing only: the model does not depend on /repo
-        return None
-    return c.tlc_mc(*a, **k)
-
-
 def run(c):
-    _mc(c, "ReqResp", "MCReqResp.cfg")
-    _mc(c, "ReqResp", "MCReqResp_canary.cfg", expect=["ExactlyOnceAtQuiescence"])
+    c.tlc_mc("ReqResp", "MCReqResp.cfg")
+    c.tlc_mc("ReqResp", "MCReqResp_canary.cfg", expect=["ExactlyOnceAtQuiescence"])
     if not c.quick:
-        _mc(c, "ReqResp", "MCReqResp3.cfg", timeout=1000)
+        c.tlc_mc("ReqResp", "MCReqResp3.cfg", timeout=1000)
     drv = c.build("drv-reqresp")
     if c.replay:
         t = c.rundir / "replay_trace.ndjson"
